@@ -125,6 +125,9 @@ Glu_alloc(
 	else fsupc = jcol;
 	*prev_next = Glu->map_in_sup[fsupc];
 	Glu->map_in_sup[fsupc] += num;
+#ifdef SLU_MT_VERIF
+	SLU_MT_VERIF_EVENT(SLUV_LUSUP_ALLOC, pnum, jcol, num, *prev_next, Glu);
+#endif
 
 #if 0
 	{
@@ -195,6 +198,9 @@ Glu_alloc(
 	Gstat->procstat[pnum].cs_time += SuperLU_timer_() - t;
 #endif
 	
+#ifdef SLU_MT_VERIF
+	SLU_MT_VERIF_EVENT(SLUV_U_ALLOC, pnum, jcol, num, *prev_next, pxgstrf_shared);
+#endif
 	break;
 
 	
@@ -238,6 +244,9 @@ Glu_alloc(
 	Gstat->procstat[pnum].cs_time += SuperLU_timer_() - t;
 #endif
 	
+#ifdef SLU_MT_VERIF
+	SLU_MT_VERIF_EVENT(SLUV_LSUB_ALLOC, pnum, jcol, num, *prev_next, pxgstrf_shared);
+#endif
 	  break;
 
     }
@@ -297,6 +306,9 @@ DynamicSetMap(
 
 #ifdef PROFILE
     Gstat->procstat[pnum].cs_time += SuperLU_timer_() - t;
+#endif
+#ifdef SLU_MT_VERIF
+    SLU_MT_VERIF_EVENT(SLUV_DYN_SETMAP, pnum, jcol, num, nextlu, Glu);
 #endif
 
     return 0;
